@@ -404,7 +404,7 @@ func (c *AnalyzeCommand) generateOutput(cmd *cobra.Command, response *domain.Ana
 	}
 
 	// Generate filename with timestamp
-	filename, err := generateOutputFilePath("analyze", extension, targetPath)
+	filename, err := generateOutputFilePath("analyze", extension, c.configFile, targetPath)
 	if err != nil {
 		return fmt.Errorf("failed to generate output path: %w", err)
 	}
